@@ -1,5 +1,8 @@
 """C10 — compiled kernels never access memory outside their arrays.
-Proof gate: Properties/C10.v (safety halves of the index-level kernel models).  Correspondence for those safety
+Proof gate: Properties/C10.v and every Properties/C10_*.v (safety halves of the index-level kernel models;
+C10_idx.v: checked-access models of em_update_matrix, window_at_index, the kernels, the radius tables and the token
+driver loop, whose own correspondence — direct kernel calls in the three modes vs the models evaluated in Coq — is
+harness/c10_idx.py, started below in parallel with the zoo).  End-to-end correspondence for the safety
 theorems: every zoo case (estimators steered to kernel edges: length-0/1 sequences and strings, radii larger than the
 sequence, pruned EM cells, tiny buffers, unseen token ids) and the distance functions are executed three times —
 normal compiled execution, NUMBA_BOUNDSCHECK=1 and NUMBA_DISABLE_JIT=1 — and must raise no IndexError /
